@@ -170,7 +170,10 @@ def unchanged(before, got):
 
 
 def check_pair(ctx, svc, inj, snap, before, req, kinds, desc=None,
-               only=None):
+               only=None, on_violation=None):
+    """on_violation(v) -> True to stop with v, False to count it (known
+    finding, or a signature already collected) and go on with the remaining
+    fault positions of this pair."""
     stats = ctx.stats
     svc.restore(snap)
     inj.start()
@@ -259,7 +262,7 @@ def check_pair(ctx, svc, inj, snap, before, req, kinds, desc=None,
                 'write-transaction' if (
                     '_update_consumers_and_create_allocations' in fnames or
                     '_set_allocations' in fnames) else 'other')
-        raise Violation(
+        v = Violation(
             {'clause': clause, 'kind': kind, 'op': req['op'],
              'scope': 'retry' if retry_scope else 'other',
              'tables': '+'.join(tables), 'site': site},
@@ -268,6 +271,8 @@ def check_pair(ctx, svc, inj, snap, before, req, kinds, desc=None,
              'fault': info, 'diff_vs_reference': (df_ref or [])[:8],
              'diff_vs_before': df_clean[:8], 'escaped': resp.escaped,
              'statements': n})
+        if on_violation is None or on_violation(v):
+            raise v
 
 
 # ------------------------------------------------------------ start-up sync
@@ -403,16 +408,10 @@ def run_worker(ctx):
         snap = svc.snapshot()
         for _ in range(per_state):
             req = build_request(data.draw, before)
-            while True:
-                try:
-                    check_pair(ctx, svc, inj, snap, before, req, kinds, desc)
-                    break
-                except Violation as v:
-                    if handle(v, desc, req):
-                        raise
-                    # known or already collected: go on behind it is not
-                    # possible inside check_pair's loop; skip this pair
-                    break
+            # known findings and signatures already collected are counted
+            # and the remaining fault positions of the pair are still tried
+            check_pair(ctx, svc, inj, snap, before, req, kinds, desc,
+                       on_violation=lambda v, r=req: handle(v, desc, r))
 
     def handle(v, desc, req):
         sig = dict(v.signature)
